@@ -345,6 +345,11 @@ func (n *lazyNode) isNull() bool {
 }
 
 func (n *lazyNode) equal(o *lazyNode) bool {
+	// A decoded JSON null is a nil node.
+	if n == nil || o == nil {
+		return n.isNull() && o.isNull()
+	}
+
 	if n.which == eRaw {
 		if !n.tryDoc() && !n.tryAry() {
 			if o.which != eRaw {
